@@ -19,7 +19,6 @@ VERIF = os.path.dirname(os.path.dirname(os.path.dirname(os.path.abspath(__file__
 REPO = os.environ.get("VERIF_REPO", "/repo")
 SPEC = os.path.join(VERIF, "spec")
 HARNESS = os.path.join(VERIF, "harness")
-VH = os.path.join(HARNESS, "bin", "vh")
 TLA_JAR = "/opt/veriftools/tla/tla2tools.jar"
 COMMUNITY = "/opt/veriftools/tla/CommunityModules-deps.jar"
 
@@ -119,11 +118,14 @@ class Ctx:
 
     # ---------------------------------------------------------------- harness
     def build(self):
-        """(Re)build vh against /repo's working tree with the hooks on."""
+        """(Re)build this property's harness binary (harness/cmd/<id> -> bin/vh-<id>) against
+        /repo's working tree with the hooks on. One binary per property, so that a harness
+        package of one property can never break the check of another."""
         os.makedirs(os.path.join(HARNESS, "bin"), exist_ok=True)
+        self.vhbin = os.path.join(HARNESS, "bin", "vh-" + self.id.lower())
         env = dict(os.environ)
         env.update(GOENV)
-        lock = open(os.path.join(HARNESS, "bin", ".lock"), "w")
+        lock = open(os.path.join(HARNESS, "bin", ".lock-" + self.id.lower()), "w")
         fcntl.flock(lock, fcntl.LOCK_EX)
         try:
             src = os.path.join(REPO, "go.sum")
@@ -132,7 +134,7 @@ class Ctx:
                 shutil.copy(src, dst)
             t = time.time()
             p = subprocess.run(
-                ["go", "build", "-tags", "verif test", "-o", VH, "./cmd/vh"],
+                ["go", "build", "-tags", "verif test", "-o", self.vhbin, "./cmd/" + self.id.lower()],
                 cwd=HARNESS, env=env, stdout=subprocess.PIPE, stderr=subprocess.STDOUT, text=True)
             if p.returncode != 0:
                 raise MachineryError("harness build failed:\n" + p.stdout[-4000:])
@@ -140,7 +142,7 @@ class Ctx:
         finally:
             fcntl.flock(lock, fcntl.LOCK_UN)
             lock.close()
-        return VH
+        return self.vhbin
 
     def vh(self, args, timeout=600, check=True, env_extra=None):
         env = dict(os.environ)
@@ -149,7 +151,7 @@ class Ctx:
         if env_extra:
             env.update(env_extra)
         try:
-            p = subprocess.run([VH] + [str(a) for a in args], cwd=self.work, env=env,
+            p = subprocess.run([self.vhbin] + [str(a) for a in args], cwd=self.work, env=env,
                                stdout=subprocess.PIPE, stderr=subprocess.PIPE, text=True, timeout=timeout)
         except subprocess.TimeoutExpired:
             raise MachineryError("vh %s timed out after %ss" % (" ".join(map(str, args)), timeout))
